@@ -17,6 +17,7 @@ from .lib import *
 from .lib import _tail_values
 
 EXPLANATION = "Who-may-construct and field provenance for ModuleTextSource (T3/T4), arm table and literal bytes of try_get_original_bytes (T8/T14), inventory of unsafe blocks and transmutes in graph.rs (cast inspection), provenance of the charset argument (T4)."
+EXPLANATION += " " + 'Plus: the header helper hands the content-type charset on for every media type.'
 NOT_DECIDED = "correctness of decoding / BOM stripping inside deno_media_type"
 CONFIGS = ["default", "nofastcheck"]  # thorough tier also analyses the build without fast_check / symbols
 ASSUMPTIONS = ["Arc<str> and Arc<[u8]> share layout (std guarantee used by the existing code)", "deno_media_type::encoding decodes correctly and reports the decode kind truthfully"]
